@@ -111,3 +111,40 @@ def quiet():
     import logging
     logging.getLogger('propka').setLevel(logging.ERROR)
     logging.getLogger('').setLevel(logging.ERROR)
+
+
+def o_coordinate_fields(ctx):
+    """Atom.set_properties reads each coordinate from all 8 columns of its field: every %8.3f rendering in PDB range
+    (-999.999 .. 9999.999: blanks, optional sign, 1-4 integer digits, point, 3 decimals) gives exactly that number"""
+    from symx import And, Or, Not, Implies, eq
+    from symx.sstr import mk, as_els
+    import propka.atom as A
+    els = list(as_els(pdb_line(1, 'CA', 'ARG', 'A', 10, 1.0, 2.0, 3.0)))
+    field = ctx.choice('field', [0, 1, 2])
+    start = (30, 38, 46)[field]
+    lead = [ctx.string('lead_%d' % j, 1, ' -0123456789') for j in range(4)]
+    frac = [ctx.string('frac_%d' % j, 1, '0123456789') for j in range(3)]
+    # well formed: blanks, then an optional minus, then at least one digit
+    for j in range(4):
+        for i in range(j):
+            ctx.assume(Implies(Or(lead[j] == ' ', lead[j] == '-'), lead[i] == ' '))
+    ctx.assume(Not(Or(lead[3] == ' ', lead[3] == '-')))
+    chars = lead + ['.'] + frac
+    for j, c in enumerate(chars):
+        els[start + j] = as_els(c)[0]
+    a = A.Atom(line=mk(els))
+    got = (a.x, a.y, a.z)[field]
+    if ctx.native:
+        expected = float(''.join(chars))
+    else:
+        import z3
+        from symx.core import SReal
+        codes = [as_els(c)[0] for c in lead]
+        dig = [z3.If(z3.And(c >= 48, c <= 57), z3.ToReal(c - 48), z3.RealVal(0)) for c in codes]
+        fr = [z3.ToReal(as_els(c)[0] - 48) for c in frac]
+        mag = dig[0] * 1000 + dig[1] * 100 + dig[2] * 10 + dig[3] + fr[0] / 10 + fr[1] / 100 + fr[2] / 1000
+        neg = z3.Or([c == 45 for c in codes])
+        expected = SReal(z3.If(neg, -mag, mag))
+    ctx.claim('coordinate-is-the-number-in-the-field', eq(got, expected), detail='field %d: %r parsed as %r' % (field, chars if ctx.native else '(symbolic)', got))
+    others = [v for i, v in enumerate((a.x, a.y, a.z)) if i != field]
+    ctx.claim('other-coordinates-untouched', others == [v for i, v in enumerate((1.0, 2.0, 3.0)) if i != field])
